@@ -89,6 +89,80 @@ pub fn judge(kind: &str, idx: u64, p: &Program, defines: &[&str], tag: &str) -> 
     res
 }
 
+
+/// Enumerated family: every update form on an element of a short array in cartridge RAM, for
+/// every way of selecting the element, from preset values on the byte-carry boundaries.
+/// (The random profile keeps to plain stores on short array elements: rule R10 of the generator.)
+pub const WIDE_FORMS: u64 = 14;
+pub const WIDE_SEL: u64 = 4;
+pub const WIDE_PRESET: u64 = 6;
+pub const WIDE_N: u64 = WIDE_FORMS * WIDE_SEL * WIDE_PRESET * 2 * 3;
+
+pub fn wide_program(idx: u64) -> (Program, Vec<&'static str>, String) {
+    use crate::matrix::{base, V, W};
+    let mut i = idx;
+    let form = i % WIDE_FORMS;
+    i /= WIDE_FORMS;
+    let sel = i % WIDE_SEL;
+    i /= WIDE_SEL;
+    let preset = i % WIDE_PRESET;
+    i /= WIDE_PRESET;
+    let signed = i % 2 == 1;
+    i /= 2;
+    let scheme = i % 3;
+    let mut p = base();
+    let mem = if scheme == 0 { MemClass::Superchip } else { MemClass::Bank(1) };
+    let cnt = p.vars.len();
+    p.vars.push(VarDecl { name: "cnt".into(), kind: VarKind::Array(if signed { Ty::I16 } else { Ty::U16 }, 4), mem, scope: Scope::Global });
+    let k = (preset % 4) as i32;
+    let (setup, index): (Vec<Stmt>, Expr) = match sel {
+        0 => (vec![Stmt::Expr(Expr::Assign(LV::X, Box::new(Expr::Num(k))))], Expr::Lv(LV::X)),
+        1 => (vec![Stmt::Expr(Expr::Assign(LV::Y, Box::new(Expr::Num(k))))], Expr::Lv(LV::Y)),
+        2 => (vec![], Expr::Num(k)),
+        _ => (vec![], Expr::Lv(LV::X)), // X as the input vector leaves it, masked below
+    };
+    let el = || LV::Idx(cnt, Box::new(index.clone()));
+    let mut body = Vec::new();
+    if sel == 3 {
+        body.push(Stmt::Expr(Expr::OpAssign(BinOp::And, LV::X, Box::new(Expr::Num(3)))));
+    }
+    body.extend(setup);
+    let presets = [0x00ff, 0x0100, 0xffff, 0x0000, 0x7fff, 0x80ff];
+    if preset < 5 {
+        body.push(Stmt::Expr(Expr::Assign(el(), Box::new(Expr::Hex(presets[preset as usize])))));
+    }
+    let dest = if signed { W } else { V };
+    let one = |op: BinOp, n: i32| Stmt::Expr(Expr::OpAssign(op, el(), Box::new(Expr::Num(n))));
+    let name;
+    let st = match form {
+        0 => { name = "e++"; Stmt::Expr(Expr::IncDec { lv: el(), post: true, inc: true }) }
+        1 => { name = "++e"; Stmt::Expr(Expr::IncDec { lv: el(), post: false, inc: true }) }
+        2 => { name = "e--"; Stmt::Expr(Expr::IncDec { lv: el(), post: true, inc: false }) }
+        3 => { name = "--e"; Stmt::Expr(Expr::IncDec { lv: el(), post: false, inc: false }) }
+        4 => { name = "e += 1"; one(BinOp::Add, 1) }
+        5 => { name = "e -= 1"; one(BinOp::Sub, 1) }
+        6 => { name = "e += 0x101"; Stmt::Expr(Expr::OpAssign(BinOp::Add, el(), Box::new(Expr::Hex(0x101)))) }
+        7 => { name = "e <<= 1"; one(BinOp::Shl, 1) }
+        8 => { name = "e >>= 1"; one(BinOp::Shr, 1) }
+        9 => { name = "e = e + 1"; Stmt::Expr(Expr::Assign(el(), Box::new(Expr::Bin(BinOp::Add, Box::new(Expr::Lv(el())), Box::new(Expr::Num(1)))))) }
+        10 => { name = "v = e++"; Stmt::Expr(Expr::Assign(LV::Var(dest), Box::new(Expr::IncDec { lv: el(), post: true, inc: true }))) }
+        11 => { name = "v = --e"; Stmt::Expr(Expr::Assign(LV::Var(dest), Box::new(Expr::IncDec { lv: el(), post: false, inc: false }))) }
+        12 => { name = "e |= 0x180"; Stmt::Expr(Expr::OpAssign(BinOp::Or, el(), Box::new(Expr::Hex(0x180)))) }
+        _ => { name = "e = v"; Stmt::Expr(Expr::Assign(el(), Box::new(Expr::Lv(LV::Var(dest))))) }
+    };
+    body.push(st);
+    // read it back into an ordinary variable too
+    body.push(Stmt::Expr(Expr::Assign(LV::Var(if signed { V } else { W }), Box::new(Expr::Lv(el())))));
+    p.funcs.push(Func { name: "main".into(), ret: None, params: vec![], body, inline: false, interrupt: false, proto_first: false });
+    let defs: Vec<&'static str> = match scheme {
+        0 => vec![],
+        1 => vec!["__3E__"],
+        _ => vec!["__3E_PLUS__"],
+    };
+    let selname = ["[X=k]", "[Y=k]", "[k]", "[X&3]"][sel as usize];
+    (p, defs, format!("{} with e = cnt{}", name, selname))
+}
+
 pub fn c17_pins() -> Vec<Pin> {
     vec![
         Pin {
@@ -131,7 +205,10 @@ impl Monitor for C17 {
          (write +$200) schemes; all operation kinds of the generator (assignment, compound assignment, ++/-- pre and post, shifts, 16-bit shifts, \
          indexing by X/Y/constant/expression, comparisons, parameters, return values). Each is executed at -O0 and -O1 from 5 input vectors on the \
          emulator's split-port model: a read of the write port, a write to the read port or a read-modify-write cycle on either is a fault; the final \
-         state read through the read port must equal the reference interpreter. non-trivial = at least one port access was executed"
+         state read through the read port must equal the reference interpreter. Also: the optimiser-bait profile with its scalars in cartridge RAM, and an \
+         enumerated family (kind wide): 14 update forms (++/-- pre and post, as statement and as value, += -= |= <<= >>=, e = e + 1, plain store) on an \
+         element of a short array in cartridge RAM x 4 ways of selecting it (X, Y, constant, masked X) x preset values on the byte-carry boundaries x \
+         signed/unsigned x the three schemes. non-trivial = at least one port access was executed"
             .into()
     }
     fn assumptions(&self) -> Vec<String> {
@@ -145,6 +222,7 @@ impl Monitor for C17 {
             Tier::Thorough => 300_000,
         };
         v.extend(split_chunks("bait", seed_offset(seed, "C17b", 400_000), n, 400_000, 150));
+        v.extend(split_chunks("wide", 0, WIDE_N, WIDE_N, 100));
         for k in ["superchip", "ram3e", "ram3ep"] {
             v.extend(split_chunks(k, seed_offset(seed, &format!("C17{}", k), 300_000), n, 300_000, 150));
         }
@@ -175,6 +253,14 @@ impl Monitor for C17 {
                 };
                 judge(kind, idx, &p, defs, "C17b")
             }
+            "wide" => {
+                let (p, defs, form) = wide_program(idx);
+                let mut r = judge(kind, idx, &p, &defs, "C17w");
+                if r.nontrivial {
+                    r.set("update forms on short array elements in cartridge RAM", &form);
+                }
+                r
+            }
             "superchip" => judge(kind, idx, &gen_program("split", idx, &cfg_split(false)), &[], "C17s"),
             "ram3e" => judge(kind, idx, &gen_program("split3e", idx, &cfg_split(true)), &["__3E__"], "C17e"),
             _ => judge(kind, idx, &gen_program("split3ep", idx, &cfg_split(true)), &["__3E_PLUS__"], "C17p"),
@@ -187,6 +273,7 @@ impl Monitor for C17 {
             ("port writes at the write port".into(), 50000),
             ("set:schemes".into(), 3),
             ("set:constructs in programs with cartridge-RAM variables".into(), 60),
+            ("set:update forms on short array elements in cartridge RAM".into(), 50),
         ]
     }
 }
